@@ -66,6 +66,12 @@ func Run(id, tier string) int {
 	}, p.Assumptions...)
 	c.TrustedBase = append([]string{"go/types, go/ast, golang.org/x/tools/go/cfg (v0.50.0)", "rule tables in /verif/internal/props and /verif/spec (hand-confirmed against the source and the cited standards)"}, p.Trusted...)
 	p.Run(c)
+	if out := os.Getenv("PDFVERIF_WRITE_COUNTS"); out != "" && tier == "quick" {
+		if err := c.WriteCounts(out); err != nil {
+			fmt.Printf("ERROR: %v\n", err)
+			return 2
+		}
+	}
 	if tier == "thorough" {
 		thorough(c, p)
 	}
